@@ -139,6 +139,7 @@ func AfterFunc(d time.Duration, f func()) *Timer {
 			return
 		}
 		tm.fired = true
+		S.TimersFired++
 		f()
 	})
 	return tm
